@@ -25,6 +25,18 @@ func smtInt(v string) string {
 	return v
 }
 
+func probeTemplate(verifDir, fn string) bool {
+	src, err := os.ReadFile(filepath.Join(verifDir, "replay", "templates", sanitize(fn)+".go.tmpl"))
+	if err != nil {
+		return false
+	}
+	head := string(src)
+	if len(head) > 400 {
+		head = head[:400]
+	}
+	return strings.Contains(head, "\n// probe:")
+}
+
 // runReplayTemplate instantiates the replay template of the obligation's function (if any)
 // with the model and runs it against the working tree through go test -overlay.
 func runReplayTemplate(e *Engine, verifDir, base string, o *Obligation, model map[string]string) (reproduced bool, output string, ran bool) {
